@@ -390,7 +390,28 @@ def tmul_c(a, b):
     return out
 
 
+def qr_inplace_fails(case):
+    """the in-place form UTPM.qr(B, out=(Q, B)) (R overwrites the matrix, as cholesky(A, out=A) and eigh(A, out=(l, A)) allow):
+    the same factors as the call with separate buffers"""
+    x = np.array(case['x'])
+    D, P, M, N = x.shape
+    K = min(M, N)
+    try:
+        Qw, Rw = UTPM.qr(UTPM(x.copy()))
+        B = UTPM(x.copy())
+        Q = UTPM(np.zeros((D, P, M, K)))
+        Qg, Rg = UTPM.qr(B, out=(Q, B[:K, :] if M > N else B))
+    except Exception as ex:
+        return 'qr-inplace-exception: %s (shape %dx%d)' % (type(ex).__name__ + ':' + str(ex)[:80], M, N)
+    if not close(Qg.data, Qw.data, 1e-10) or not close(Rg.data, Rw.data, 1e-10):
+        return 'qr-inplace: UTPM.qr(B, out=(Q, B)) of a %dx%d matrix polynomial differs from the call with separate buffers (max diff in R %s)' % (
+            M, N, maxdiff(Rg.data, Rw.data))
+    return None
+
+
 def replay_case(ctx, case):
+    if case.get('op') == 'qr-inplace':
+        return qr_inplace_fails(case)
     if case.get('op') == 'utpclass-table':
         import utpcheck
         return utpcheck.replay(case)
@@ -470,6 +491,15 @@ def run(ctx):
                 f = 'exception-%s: %s' % (c['op'], type(ex).__name__ + ':' + str(ex)[:100])
             if f:
                 ctx.report(c, 'failure', f)
+    for (m_, n_) in ((2, 2), (3, 3), (2, 4), (2, 3), (3, 5)):
+        for D_, P_ in ((1, 1), (3, 2)):
+            x_ = ops.gen_tall(rng, D_, P_, m_, n_) if m_ >= n_ else np.concatenate([ops.gen_tall(rng, D_, P_, m_, m_), rand_coeffs(rng, (D_, P_, m_, n_ - m_), -1, 1)], axis=3)
+            case = {'op': 'qr-inplace', 'D': D_, 'P': P_, 'x': x_}
+            ctx.evaluations += 1
+            ctx.count('qr-inplace-form')
+            f = qr_inplace_fails(case)
+            if f:
+                ctx.report(case, 'failure', f)
     # the plain factorization (D = 1) of rank-deficient matrices, and matrices without rows / columns at every D: the factors
     # exist (QR of any matrix; empty factors), nothing needs to be inverted
     for kind in ('qr_full', 'qr'):
